@@ -429,7 +429,7 @@ def shapes(tier: str, pid: str):
     A(("events", {"events": [(1, 0), (1, 1), (0, 1)], "lab": [1, 255, 1]}))  # the 255/256-byte boundary, every tier
     if not q:
         for kind, key in (("data3d", "tracks"), ("emg", "signals"), ("force3d", "tracks"), ("fpdata", "plats")):
-            A((kind, {"n": 4, key: 3, "lab": [1, 0, 2], "links": 3}))
+            A((kind, {"n": 2, key: 3, "lab": [1, 0, 2], "links": 3}))  # 3 items: 2^6 gap masks (4096 masks at n=4 took a quarter of an hour per instance)
             A((kind, {"n": 10, key: 1, "lab": [1], "links": 0}))
             A((kind, {"n": 5, key: 2, "lab": [2], "links": 1}))
         A(("data2d", {"cells": [[2, 1, None], [None, 3, 1], [1, None, 2]]}))
